@@ -18,7 +18,7 @@ for d in sorted(glob.glob(os.path.join(ROOT, "seeded", "*"))):
 hdr = """### 9.5 Seeded changes and which checks catch them
 
 %d changes to txtpp were written by sub-agents that saw only the text of one property and a scratch worktree
-(fourteen rounds; the second asked for less obvious sites, the third and fourth (`"round"` in meta.json) for three mutually
+(fifteen rounds; the second asked for less obvious sites, the third and fourth (`"round"` in meta.json) for three mutually
 different mechanisms per property with narrow failing inputs, schedule-dependent ones included; the fifth and sixth were
 confined to the ENTRY LAYER - src/main.rs, lib.rs, config.rs, progress.rs, error.rs, shell.rs: how an invocation becomes a
 run and how its result is reported). Each was confirmed in a scratch worktree (`tools/confirm_seeds.sh`,
@@ -117,7 +117,16 @@ directives in collect mode (C15), a shell killed by a signal and a shell found t
 reading standard input while txtpp's own stdin is an open pipe and status lines shortened at a byte offset inside a
 multi-byte character (C18). Explicit scenarios for each (corner projects 1b and 16-19, the corner job now also in the checks
 of C05 and C07, output sizes at 64 KiB multiples in C06, a signal-killed command shape and a relative-PATH shell in C17, an
-open-stdin run and 24 long multi-byte paths with the progress display on in C18); all ten are caught now.
+open-stdin run and 24 long multi-byte paths with the progress display on in C18); all ten are caught now. Round 15
+(C02, C12, C14-C17; same free-choice prompt; 18 changes), first run without additions: 15 of 18 caught, three missed - the
+line-ending probe limited to 64 KiB (C12-18) and to 16 KiB (C16-20: the long-first-line scenarios stopped at 9000 bytes; they
+now also have 17 000 and 70 000 bytes, and the C12 generator draws first lines around 8, 16, 64 and 128 KiB), and a tag name cut
+at its first blank (C14-19: generated tag names had no inner white space; the generator now draws `SEC A<n>` / `T --><n>`
+and two corner projects carry the README's `PRE_CONTENT -->` name and two names sharing their first word). All three are
+caught now. One change of this round (C14-17: a tag span computed in characters but used in bytes) makes a worker thread of
+txtpp panic, after which `Txtpp::run` waits for ever; the in-process end-to-end job then sits until the job timeout of the
+check driver (900 s) ends it - the change is reported (by the tag jobs at once, by the timed-out job as a failed job), but
+the quick check of C14 takes that long on such a tree.
 
 | id | property | what the change does | caught by (quick tier) |
 |----|----------|----------------------|------------------------|
